@@ -29,7 +29,7 @@ PROPS = {
     "C15": P(160000, 3000000, expect_reach=["mempool.new_page", "mempool.bucket_from_global_lifo", "c15.mempool_allocs", "c15.mempool_cross_thread_frees", "c15.ext_frees_of_user_stack_ults", "c15.churn_units", "c15.churn_rounds_finished_on_another_stream", "c15.cancel_requests_to_queued_unnamed_units"],
              assumptions=["the white-box driver uses ABTI_mem_pool_* exactly as abti_mem.h does (one local pool per simulated thread, blocks may be freed to any local pool of the same global pool)",
                           "stack sizes 16 KiB..2 MiB (+50%) in the quick tier, up to 16 MiB in the thorough tier; with stack guards enabled the two lowest pages are not written"]),
-    "C16": P(160000, 3000000, expect_reach=["key.chain_append", "key.table_creation_race_lost", "c16.remote_sets_while_owner_runs", "c16.destructor_calls", "c16.revives", "c16.keys_replaced_while_values_live"],
+    "C16": P(160000, 3000000, expect_reach=["key.chain_append", "key.table_creation_race_lost", "c16.remote_sets_while_owner_runs", "c16.destructor_calls", "c16.revives", "c16.keys_replaced_while_values_live", "c16.runs_with_high_key_ids"],
              assumptions=["every (unit,key) pair has a single writer (the owner or one remote setter), so the expected value is unique; ABT_KEY_TABLE_SIZE is randomised in {1,...,64}", "a revived unit is the same work unit: its values survive ABT_thread_revive / ABT_task_revive and are destroyed at the free"]),
     "C17": P(160000, 3000000, expect_reach=["c17.lin_decided"],
              assumptions=["each stream is freed / re-ranked only by the actor that created it; ABT_xstream_set_main_sched is applied to a joined stream or to the caller's own stream",
